@@ -74,7 +74,8 @@ def main():
     out["detected_with_failing_input"] = any(d.get("failing_input") for c in out["checks"].values() for d in c["details"])
     print(json.dumps(out, indent=1))
     if keep:
-        name = os.path.basename(os.path.normpath(mdir)).replace("mut_", "").replace("mut2_", "r2-").replace("mut3_", "r3-").replace("mut4_", "r4-").replace("mut5_", "r5-")
+        import re as _re
+        name = _re.sub(r"^mut(\d+)_", lambda m: "r%s-" % m.group(1), os.path.basename(os.path.normpath(mdir)).replace("mut_", ""))
         dst = os.path.join(ROOT, "seeded", name)
         os.makedirs(dst, exist_ok=True)
         shutil.copy(patch, os.path.join(dst, "patch.diff"))
